@@ -151,6 +151,13 @@ def random_items(ctx, n, pools=False):
                 adds = [(k, vg.val(vl)) for k in keys] + [(b"d00", vg.val(thr + d)), (b"d01", vg.val(5))]
                 items.append({"name": "cut%d_%d_%d" % (ri, m, d + 10), "cfg": gen.writer_cfg(comp="none", bs=1024, ri=ri), "adds": adds,
                               "origin": "random", "klass": "cutsweep", "poolsize": -1, "verify": 1, "madv": 0})
+        # restart intervals of 255 and more with more entries than that in one block (counters wider than a byte)
+        for ri in ((256, 300) if ctx.quick() else (255, 256, 257, 300, 1000)):
+            vg = gen.VGen(980000 + ri)
+            nent = 700 if ri < 1000 else 1300
+            adds = [(b"%04d" % i, vg.val(i % 3)) for i in range(nent)]
+            items.append({"name": "wri%d" % ri, "cfg": gen.writer_cfg(comp="none", bs=16384, ri=ri), "adds": adds,
+                          "origin": "random", "klass": "wideri", "poolsize": -1, "verify": 1, "madv": 0})
         # many blocks through a pool of several real threads, every compression type (blocks are compressed on the workers:
         # several compressions of one kind run at the same time)
         reps = 2 if ctx.quick() else 12
